@@ -7,6 +7,7 @@ mod c03;
 mod c04;
 mod c04s;
 mod c05;
+mod c06;
 mod c12;
 mod c13;
 mod c14;
@@ -90,6 +91,7 @@ fn main() {
         "C03" => c03::run(&ctx),
         "C04" => c04::run(&ctx),
         "C05" => c05::run(&ctx),
+        "C06" => c06::run(&ctx),
         "C12" => c12::run(&ctx),
         "C13" => c13::run(&ctx),
         "C16" => c16::run(&ctx),
